@@ -109,9 +109,9 @@ def compare(schema, report, data, incl, out, wit):
                 g = fj[fn]
                 if tref_json(g["type"]) != f["type"]:
                     out.setdefault("intro/field-type", ["field type differs", dict(wit, type=n, field=fn)])
-                dep = f.get("dep") or ""
-                dep = schemagamma.ASTRAL if dep == "ASTRAL" else dep
-                if bool(g["isDeprecated"]) != bool(dep) or (g.get("deprecationReason") or "") != dep:
+                raw = f.get("dep") or ""
+                dep = schemagamma.ASTRAL if raw == "ASTRAL" else "" if raw == "EMPTY" else raw       # EMPTY: deprecated, with the empty string as reason
+                if bool(g["isDeprecated"]) != bool(raw) or (g.get("deprecationReason") or "") != dep:
                     out.setdefault("intro/deprecation/field", ["deprecation flag / reason differs", dict(wit, type=n, field=fn, got=[g["isDeprecated"], g.get("deprecationReason")])])
                 aj = {a["name"]: a for a in g.get("args") or []}
                 ae = {a["name"]: a for a in f.get("args", [])}
